@@ -1,11 +1,13 @@
 #!/bin/sh
-# run the quick tier of every claimed check; print one summary line each
+# run one tier of every claimed check; print one summary line each.  usage: runall.sh [quick|thorough] [logdir]
 cd "$(dirname "$0")/.."
 tier=${1:-quick}
+logdir=${2:-/var/tmp}
+mkdir -p "$logdir"
 for id in $(python3 -c "import json;print(' '.join(c['property_id'] for c in json.load(open('MANIFEST.json'))['checks']))"); do
   s=$(date +%s)
-  ./check $id --tier $tier > /var/tmp/runall-$id.log 2>&1
+  ./check $id --tier $tier > "$logdir/runall-$id.log" 2>&1
   rc=$?
   e=$(date +%s)
-  echo "$id exit=$rc $((e-s))s $(grep -c '^VIOLATION' /var/tmp/runall-$id.log) violations; $(grep 'INCONCLUSIVE' /var/tmp/runall-$id.log | head -2 | cut -c1-200)"
+  echo "$id exit=$rc $((e-s))s $(grep -c '^VIOLATION' "$logdir/runall-$id.log") violations; $(grep 'INCONCLUSIVE' "$logdir/runall-$id.log" | head -2 | cut -c1-200)"
 done
